@@ -68,6 +68,7 @@ AllLinesAt(d) ==
   \cup {Line(d, "kw", n, u) : n \in Names, u \in Names}          \* n(u=1)
   \cup {Line(d, "try", "", ""), Line(d, "fin", "", "")}          \* try:   /   finally: pass
   \cup {Line(d, "if", "", ""), Line(d, "els", "", "")}           \* if 1:  /   else:
+  \cup {Line(d, "tup", n, u) : n \in Names, u \in Names}         \* n, u   (an expression without brackets)
 LinesAt(d) == {l \in AllLinesAt(d) : l.k \in Kinds}
 
 Max(S) == CHOOSE x \in S : \A y \in S : y <= x
